@@ -947,7 +947,12 @@ def find_distributed_partition(
     sent_ary_to_name: dict[Array, str] = {}
     for ary in sent_arrays:
         pid = stored_ary_to_part_id[ary]
-        name = gen_array_name(ary)
+        if ary in received_arrays:
+            # A received array that is sent on unchanged: received names must
+            # not be part outputs, so the sent copy gets a name of its own.
+            name = array_name_gen()
+        else:
+            name = gen_array_name(ary)
         sent_ary_to_name[ary] = name
         name_to_output_per_part[pid][name] = ary
 
